@@ -91,9 +91,9 @@ def delivery_run(
     try:
         if resubmit:
             w.submit(spec)
-        run.wf_id = w.wf_id
         if pre_hook:
             pre_hook(w)
+        run.wf_id = w.wf_id
         by_step: dict[int, list[dict]] = {}
         for inj in injections or []:
             by_step.setdefault(int(inj["at"]), []).append(inj)
